@@ -154,7 +154,7 @@ def plan(tier):
         shards.append({"kind": "odd-parents", "index": i})
     for i in range(len(HISTORY_OPS)):
         shards.append({"kind": "histories", "first": i})
-    shards += H.plan_shards(['nested-revisions', 'minor-versions'])
+    shards += H.plan_shards(['nested-revisions', 'minor-versions', 'shared-arguments'])
     return shards
 
 
@@ -203,7 +203,12 @@ def explore_case(case, R, fn, expected, label):
         executions = [(obs, sch)]
     else:
         executions = []
-        n, npoints, capped = sched.explore(fn, bound, lambda o, s: executions.append((o, s)), max_executions=20000 if tier == "quick" else 200000)
+        try:
+            n, npoints, capped = sched.explore(fn, bound, lambda o, s: executions.append((o, s)), max_executions=20000 if tier == "quick" else 200000)
+        except sched.CanonicalNotReproducible as ex:
+            R.outcome("not-reproducible")
+            R.violation("result-depends-on-earlier-calls:repeated-" + label, "the same call repeated in one process under the same enumeration order takes the same course and gives the same result", case, observed=str(ex)[:600])
+            return None
         if capped:
             R.notes.add("execution cap hit for %s %s" % (cfg_name, label))
     canonical = executions[0][0]
